@@ -68,7 +68,15 @@ def run_real(bib, text):
     f = bib.middlewares.names.parse_single_name_into_parts
     try:
         p = f(text, strict=True)
-        return {"err": False, "parts": {"first": list(p.first), "von": list(p.von), "last": list(p.last), "jr": list(p.jr)}}
+        got = {"first": list(p.first), "von": list(p.von), "last": list(p.last), "jr": list(p.jr)}
+        # the caller edits what it got; the answer for the same name must not depend on that (no shared state between calls)
+        for part in (p.first, p.von, p.last, p.jr):
+            part.append("<edited by the caller>")
+        q = f(text, strict=True)
+        again = {"first": list(q.first), "von": list(q.von), "last": list(q.last), "jr": list(q.jr)}
+        if again != got:
+            return {"err": False, "parts": again, "first_call": got, "note": "second call after the caller edited the first result"}
+        return {"err": False, "parts": got}
     except bib.middlewares.names.InvalidNameError as ex:
         return {"err": True, "msg": str(ex)}
     except Exception as ex:  # noqa
